@@ -6,7 +6,7 @@
    The calendar part: days_from_civil (civil_from_days z) = z with a valid civil date, for all z of that range,
    from one sweep over the 146 097 days of a 400-year era plus arithmetic in the era number. *)
 From AP.Model Require Import Prelude Bytes Vocab Json JsonLeaf Text JsonDec.
-From AP.Proofs Require Import NlvP TextP C01NumP C01SweepP XsdDurP.
+From AP.Proofs Require Import NlvP TextP C01NumP C01SweepP XsdDurP XsdAgreeP TimeAgreeP.
 Open Scope Z_scope.
 
 Lemma is_leap_era y e : is_leap (y + e * 400) = is_leap y.
@@ -158,7 +158,8 @@ Proof.
   destruct (dw2 (rem mod 3600 / 60) ltac:(lia)) as [n1 [n2 [En Nn]]].
   destruct (dw2 (rem mod 60) ltac:(lia)) as [s1 [s2 [Es Ns]]].
   rewrite E4, Em, Ed, Eh, En, Es. cbn [app].
-  unfold parse_rfc3339.
+  (* shown of the fixed-width reader; the total reader of the decoder model agrees with it (Proofs/TimeAgreeP.v) *)
+  apply rfc3339_grammar_agrees. unfold rfc3339_grammar.
   change (Byte.eqb x2d x2d) with true. change (Byte.eqb x54 x54) with true. change (Byte.eqb x3a x3a) with true.
   cbn [andb]. cbv iota. rewrite Na, Nb, Nm, Nd, Nh, Nn, Ns. cbv iota.
   rewrite Ey.
@@ -380,7 +381,8 @@ Proof.
   assert (Hmatch : forall (A : Type) (b0 : bytes) (x y : A), b0 <> [] -> match b0 with [] => x | _ :: _ => y end = y)
     by (intros A b0 x y Hb0; destruct b0; congruence).
   clearbody body.
-  unfold parse_xsd_duration. destruct (d <? 0) eqn:Eneg.
+  (* shown of the reader on the grammar; the total reader of the decoder model agrees with it (Proofs/XsdAgreeP.v) *)
+  apply xsd_grammar_agrees. unfold xsd_duration_grammar. destruct (d <? 0) eqn:Eneg.
   - cbn [app]. change (Byte.eqb x2d x2d) with true. cbv iota. change (Byte.eqb x50 x50) with true. cbv iota.
     rewrite (Hmatch _ body _ _ Hbne), Hbp. f_equal. apply Z.ltb_lt in Eneg. rewrite wrap64_small by lia. lia.
   - cbn [app]. change (Byte.eqb x50 x2d) with false. cbv iota. change (Byte.eqb x50 x50) with true. cbv iota.
